@@ -29,8 +29,10 @@ import (
 	"encoding/json"
 	"errors"
 	"io"
+	"os/exec"
 	"reflect"
 	"strings"
+	"sync"
 	"syscall"
 	"time"
 
@@ -60,9 +62,47 @@ const (
 
 type ControllableTask struct {
 	taskBase
+	mu                      sync.Mutex // guards rpc, taskCmd, knownPid and killRequested
 	rpc                     *executorcmd.RpcClient
+	taskCmd                 *exec.Cmd     // set once the process has been started
+	killRequested           bool          // Kill was called, whatever happens next is not a failure
+	killCh                  chan struct{} // closed by the first Kill
 	pendingFinalTaskStateCh chan mesos.TaskState
 	knownPid                int
+}
+
+func (t *ControllableTask) getRpc() *executorcmd.RpcClient {
+	t.mu.Lock()
+	defer t.mu.Unlock()
+	return t.rpc
+}
+
+func (t *ControllableTask) setRpc(rpc *executorcmd.RpcClient) {
+	t.mu.Lock()
+	t.rpc = rpc
+	t.mu.Unlock()
+}
+
+func (t *ControllableTask) getKnownPid() int {
+	t.mu.Lock()
+	defer t.mu.Unlock()
+	return t.knownPid
+}
+
+// finalState returns the state a kill request has decided for this task, if any,
+// otherwise the given one. A task that is being killed on request is never reported as failed.
+func (t *ControllableTask) finalState(state mesos.TaskState) mesos.TaskState {
+	select {
+	case pending := <-t.pendingFinalTaskStateCh:
+		return pending
+	default:
+	}
+	t.mu.Lock()
+	defer t.mu.Unlock()
+	if t.killRequested {
+		return mesos.TASK_KILLED
+	}
+	return state
 }
 
 type CommitResponse struct {
@@ -92,6 +132,7 @@ func (t *ControllableTask) Launch() error {
 		}))
 
 	t.pendingFinalTaskStateCh = make(chan mesos.TaskState, 1) // we use this to receive a pending status update if the task was killed
+	t.killCh = make(chan struct{})
 	taskCmd, err := prepareTaskCmd(t.Tci)
 	if err != nil {
 		msg := "cannot build task command"
@@ -132,6 +173,8 @@ func (t *ControllableTask) Launch() error {
 
 		// Set up pipes for controlled process
 		var errStdout, errStderr error
+		var copyWg sync.WaitGroup
+		copyWg.Add(2)
 		stdoutIn, _ := taskCmd.StdoutPipe()
 		stderrIn, _ := taskCmd.StderrPipe()
 
@@ -147,9 +190,17 @@ func (t *ControllableTask) Launch() error {
 			}).
 				Error("failed to run task")
 
-			t.sendStatus(t.knownEnvironmentId, mesos.TASK_FAILED, err.Error())
-			_ = t.doTermIntKill(-taskCmd.Process.Pid)
+			// nothing was started, so there is no process to signal
+			t.sendStatus(t.knownEnvironmentId, t.finalState(mesos.TASK_FAILED), err.Error())
 			return
+		}
+		t.mu.Lock()
+		t.taskCmd = taskCmd
+		killedBeforeStart := t.killRequested
+		t.mu.Unlock()
+		if killedBeforeStart {
+			// Kill arrived when there was no process yet: it could not signal anything, so we do
+			_ = t.doKill9(-taskCmd.Process.Pid)
 		}
 		log.WithField("id", t.ti.TaskID.Value).
 			WithField("task", t.ti.Name).
@@ -180,6 +231,7 @@ func (t *ControllableTask) Launch() error {
 		switch *t.Tci.Stdout {
 		case "stdout":
 			go func() {
+				defer copyWg.Done()
 				entry := log.WithPrefix("task-stdout").
 					WithField("level", infologger.IL_Support).
 					WithField("partition", t.knownEnvironmentId.String()).
@@ -195,6 +247,7 @@ func (t *ControllableTask) Launch() error {
 			}()
 		case "all":
 			go func() {
+				defer copyWg.Done()
 				entry := log.WithPrefix("task-stdout").
 					WithField("level", infologger.IL_Support).
 					WithField("partition", t.knownEnvironmentId.String()).
@@ -209,6 +262,7 @@ func (t *ControllableTask) Launch() error {
 			}()
 		default:
 			go func() {
+				defer copyWg.Done()
 				_, errStdout = io.Copy(io.Discard, stdoutIn)
 			}()
 		}
@@ -216,6 +270,7 @@ func (t *ControllableTask) Launch() error {
 		switch *t.Tci.Stderr {
 		case "stdout":
 			go func() {
+				defer copyWg.Done()
 				entry := log.WithPrefix("task-stderr").
 					WithField("level", infologger.IL_Support).
 					WithField("partition", t.knownEnvironmentId.String()).
@@ -231,6 +286,7 @@ func (t *ControllableTask) Launch() error {
 			}()
 		case "all":
 			go func() {
+				defer copyWg.Done()
 				entry := log.WithPrefix("task-stderr").
 					WithField("level", infologger.IL_Support).
 					WithField("partition", t.knownEnvironmentId.String()).
@@ -245,6 +301,7 @@ func (t *ControllableTask) Launch() error {
 			}()
 		default:
 			go func() {
+				defer copyWg.Done()
 				_, errStderr = io.Copy(io.Discard, stderrIn)
 			}()
 		}
@@ -273,7 +330,7 @@ func (t *ControllableTask) Launch() error {
 
 		rpcDialStartTime := time.Now()
 
-		t.rpc = executorcmd.NewClient(
+		rpc := executorcmd.NewClient(
 			t.Tci.ControlPort,
 			t.Tci.ControlMode,
 			controlTransport,
@@ -287,7 +344,7 @@ func (t *ControllableTask) Launch() error {
 				},
 				),
 		)
-		if t.rpc == nil {
+		if rpc == nil {
 			err = errors.New("rpc client is nil")
 			log.WithField("partition", t.knownEnvironmentId.String()).
 				WithField("detector", t.knownDetector).
@@ -300,11 +357,14 @@ func (t *ControllableTask) Launch() error {
 				WithField("level", infologger.IL_Devel).
 				Error("could not start gRPC client")
 
-			t.sendStatus(t.knownEnvironmentId, mesos.TASK_FAILED, err.Error())
+			t.sendStatus(t.knownEnvironmentId, t.finalState(mesos.TASK_FAILED), err.Error())
 			_ = t.doTermIntKill(-taskCmd.Process.Pid)
 			return
 		}
-		t.rpc.TaskCmd = taskCmd
+		rpc.TaskCmd = taskCmd
+		// From here on this goroutine works with its own reference: Kill may close the
+		// client and reset t.rpc at any time, the calls below then simply fail.
+		t.setRpc(rpc)
 
 		utils.TimeTrack(launchStartTime,
 			"executor.ControllableTask.Launch.async: Launch begin to gRPC client dial success",
@@ -342,7 +402,7 @@ func (t *ControllableTask) Launch() error {
 				}).
 				Debug("polling task for IDLE state reached")
 
-			response, err := t.rpc.GetState(context.TODO(), &pb.GetStateRequest{}, grpc.EmptyCallOption{})
+			response, err := rpc.GetState(context.TODO(), &pb.GetStateRequest{}, grpc.EmptyCallOption{})
 			if err != nil {
 				log.WithError(err).
 					WithField("partition", t.knownEnvironmentId.String()).
@@ -363,10 +423,12 @@ func (t *ControllableTask) Launch() error {
 						"level":   infologger.IL_Devel,
 					}).
 					Debug("task status queried")
+				t.mu.Lock()
 				t.knownPid = int(response.GetPid())
+				t.mu.Unlock()
 			}
 			// NOTE: we acquire the transitioner-dependent STANDBY equivalent state
-			reachedState := t.rpc.FromDeviceState(response.GetState())
+			reachedState := rpc.FromDeviceState(response.GetState())
 
 			if reachedState == "STANDBY" && err == nil {
 				log.WithField("partition", t.knownEnvironmentId.String()).
@@ -379,11 +441,11 @@ func (t *ControllableTask) Launch() error {
 				break
 			} else if reachedState == "DONE" || reachedState == "ERROR" {
 				// something went wrong, the device moved to DONE or ERROR on startup
-				pid := t.knownPid
+				pid := t.getKnownPid()
 				if pid == 0 {
 					// The pid was never known through a successful `GetState` in the lifetime
 					// of this process, so we must rely on the PGID of the containing shell
-					pid = -t.rpc.TaskCmd.Process.Pid
+					pid = -taskCmd.Process.Pid
 				}
 				log.WithField("partition", t.knownEnvironmentId.String()).
 					WithField("detector", t.knownDetector).
@@ -396,16 +458,16 @@ func (t *ControllableTask) Launch() error {
 				log.WithField("partition", t.knownEnvironmentId.String()).
 					WithField("detector", t.knownDetector).
 					WithField("task", t.ti.Name).Debug("task killed")
-				t.sendStatus(t.knownEnvironmentId, mesos.TASK_FAILED, "task reached wrong state on startup")
+				t.sendStatus(t.knownEnvironmentId, t.finalState(mesos.TASK_FAILED), "task reached wrong state on startup")
 				return
 			} else if elapsed >= startupTimeout {
 				err = errors.New("timeout while waiting for task startup")
 				log.WithField("partition", t.knownEnvironmentId.String()).
 					WithField("detector", t.knownDetector).
 					WithField("task", t.ti.Name).Error(err.Error())
-				t.sendStatus(t.knownEnvironmentId, mesos.TASK_FAILED, err.Error())
-				_ = t.rpc.Close()
-				t.rpc = nil
+				t.sendStatus(t.knownEnvironmentId, t.finalState(mesos.TASK_FAILED), err.Error())
+				_ = rpc.Close()
+				t.setRpc(nil)
 
 				_ = stdoutIn.Close()
 				_ = stderrIn.Close()
@@ -417,7 +479,17 @@ func (t *ControllableTask) Launch() error {
 					WithField("task", t.ti.Name).
 					WithField("command", truncatedCmd).
 					Debugf("task not ready yet, waiting %s", startupPollingInterval.String())
-				time.Sleep(startupPollingInterval)
+				select {
+				case <-t.killCh:
+					// Killed while starting up: Kill takes care of the process,
+					// all that is left to do here is to reap it and report.
+					_ = taskCmd.Wait()
+					_ = rpc.Close()
+					t.setRpc(nil)
+					t.sendStatus(t.knownEnvironmentId, t.finalState(mesos.TASK_KILLED), "")
+					return
+				case <-time.After(startupPollingInterval):
+				}
 				elapsed += startupPollingInterval
 			}
 		}
@@ -445,22 +517,22 @@ func (t *ControllableTask) Launch() error {
 				}))
 
 		// Set up event stream from task
-		esc, err := t.rpc.EventStream(context.TODO(), &pb.EventStreamRequest{}, grpc.EmptyCallOption{})
+		esc, err := rpc.EventStream(context.TODO(), &pb.EventStreamRequest{}, grpc.EmptyCallOption{})
 		if err != nil {
 			log.WithField("task", t.ti.Name).
 				WithError(err).
 				WithField("partition", t.knownEnvironmentId.String()).
 				WithField("detector", t.knownDetector).
 				Error("cannot set up event stream from task")
-			t.sendStatus(t.knownEnvironmentId, mesos.TASK_FAILED, err.Error())
-			_ = t.rpc.Close()
-			t.rpc = nil
+			t.sendStatus(t.knownEnvironmentId, t.finalState(mesos.TASK_FAILED), err.Error())
+			_ = rpc.Close()
+			t.setRpc(nil)
 			return
 		}
 
 		// send RUNNING
 		t.sendStatus(t.knownEnvironmentId, mesos.TASK_RUNNING, "")
-		taskMessage := event.NewAnnounceTaskPIDEvent(t.ti.TaskID.GetValue(), int32(t.knownPid))
+		taskMessage := event.NewAnnounceTaskPIDEvent(t.ti.TaskID.GetValue(), int32(t.getKnownPid()))
 		taskMessage.SetLabels(map[string]string{"detector": t.knownDetector, "environmentId": t.knownEnvironmentId.String()})
 
 		jsonEvent, err := json.Marshal(taskMessage)
@@ -491,12 +563,11 @@ func (t *ControllableTask) Launch() error {
 				TaskId:     t.ti.TaskID,
 			}
 			for {
-				if t.rpc == nil {
+				if t.getRpc() == nil {
 					log.WithField("partition", t.knownEnvironmentId.String()).
 						WithField("detector", t.knownDetector).
 						WithField("taskId", deo.TaskId.GetValue()).
 						WithField("taskName", t.ti.Name).
-						WithError(err).
 						Debug("event stream done")
 					break
 				}
@@ -542,14 +613,14 @@ func (t *ControllableTask) Launch() error {
 							WithField("detector", t.knownDetector).
 							WithField("taskId", taskId).
 							WithField("taskName", t.ti.Name).
-							WithField("taskPid", t.knownPid).
+							WithField("taskPid", t.getKnownPid()).
 							Debug("END_OF_STREAM DeviceEvent received - notifying environment")
 					} else if ev.GetType() == pb.DeviceEventType_TASK_INTERNAL_ERROR {
 						log.WithField("partition", t.knownEnvironmentId.String()).
 							WithField("detector", t.knownDetector).
 							WithField("taskId", taskId).
 							WithField("taskName", t.ti.Name).
-							WithField("taskPid", t.knownPid).
+							WithField("taskPid", t.getKnownPid()).
 							WithField("level", infologger.IL_Support).
 							Warningf("task transitioned to ERROR on its own - notifying environment")
 					}
@@ -591,20 +662,16 @@ func (t *ControllableTask) Launch() error {
 			pendingState = mesos.TASK_FAILED
 		}
 
-		select {
-		case pending := <-t.pendingFinalTaskStateCh:
-			pendingState = pending
-		default:
-		}
+		pendingState = t.finalState(pendingState)
 
-		if t.rpc != nil {
-			_ = t.rpc.Close() // NOTE: might return non-nil error, but we don't care much
+		if t.getRpc() != nil {
+			_ = rpc.Close() // NOTE: might return non-nil error, but we don't care much
 			log.WithField("partition", t.knownEnvironmentId.String()).
 				WithField("detector", t.knownDetector).
 				WithField("taskId", t.ti.TaskID.GetValue()).
 				WithField("taskName", t.ti.Name).
 				Debug("rpc client closed")
-			t.rpc = nil
+			t.setRpc(nil)
 			log.WithField("partition", t.knownEnvironmentId.String()).
 				WithField("detector", t.knownDetector).
 				WithField("taskId", t.ti.TaskID.GetValue()).
@@ -612,6 +679,7 @@ func (t *ControllableTask) Launch() error {
 				Debug("rpc client removed")
 		}
 
+		copyWg.Wait() // taskCmd.Wait has closed the pipes, so both copies end
 		if errStdout != nil || errStderr != nil {
 			log.WithField("partition", t.knownEnvironmentId.String()).
 				WithField("detector", t.knownDetector).
@@ -641,12 +709,13 @@ func (t *ControllableTask) Launch() error {
 
 func (t *ControllableTask) UnmarshalTransition(data []byte) (cmd *executorcmd.ExecutorCommand_Transition, err error) {
 	cmd = new(executorcmd.ExecutorCommand_Transition)
-	if t.rpc == nil {
+	rpc := t.getRpc()
+	if rpc == nil {
 		err = errors.New("cannot unmarshal transition: RPC is down")
 		cmd = nil
 		return
 	}
-	cmd.Transitioner = t.rpc.Transitioner
+	cmd.Transitioner = rpc.Transitioner
 	err = json.Unmarshal(data, cmd)
 	if err != nil {
 		cmd = nil
@@ -666,9 +735,40 @@ func (t *ControllableTask) Kill() error {
 		pid          = 0
 		reachedState = "UNKNOWN" // FIXME: should be LAUNCHING or similar
 	)
+	t.mu.Lock()
+	if t.killRequested {
+		t.mu.Unlock()
+		return nil // a kill is already in progress or done
+	}
+	t.killRequested = true
+	if t.killCh != nil {
+		close(t.killCh)
+	}
+	rpc := t.rpc
+	taskCmd := t.taskCmd
+	t.mu.Unlock()
+
+	if rpc == nil {
+		// The task is not connected (yet), or it is gone and reaped already: there is no
+		// device to walk down, only a process group (if any) to terminate.
+		select {
+		case t.pendingFinalTaskStateCh <- mesos.TASK_KILLED:
+		default:
+		}
+		if taskCmd == nil || taskCmd.Process == nil {
+			// no process yet, the launch goroutine kills it as soon as it exists
+			return nil
+		}
+		pid = -taskCmd.Process.Pid
+		if pidExists(pid) {
+			return t.doTermIntKill(pid)
+		}
+		return nil
+	}
+
 	cxt, cancel := context.WithTimeout(context.Background(), KILL_TRANSITION_TIMEOUT)
 	defer cancel()
-	response, err := t.rpc.GetState(cxt, &pb.GetStateRequest{}, grpc.EmptyCallOption{})
+	response, err := rpc.GetState(cxt, &pb.GetStateRequest{}, grpc.EmptyCallOption{})
 	if err == nil { // we successfully got the state from the task
 		log.WithField("nativeState", response.GetState()).
 			WithField("taskId", t.ti.GetTaskID()).
@@ -678,7 +778,7 @@ func (t *ControllableTask) Kill() error {
 			Debug("task status queried for upcoming soft kill")
 
 		// NOTE: we acquire the transitioner-dependent STANDBY equivalent state
-		reachedState = t.rpc.FromDeviceState(response.GetState())
+		reachedState = rpc.FromDeviceState(response.GetState())
 
 		nextTransition := func(currentState string) (exc *executorcmd.ExecutorCommand_Transition) {
 			var evt, destination string
@@ -698,7 +798,7 @@ func (t *ControllableTask) Kill() error {
 			}
 
 			exc = executorcmd.NewLocalExecutorCommand_Transition(
-				t.rpc.Transitioner,
+				rpc.Transitioner,
 				t.knownEnvironmentId,
 				[]controlcommands.MesosCommandTarget{
 					{
@@ -779,7 +879,7 @@ func (t *ControllableTask) Kill() error {
 		pid = int(response.GetPid())
 		if pid == 0 {
 			// t.knownPid must be valid because GetState was sure to have been successful in the past
-			pid = t.knownPid
+			pid = t.getKnownPid()
 		}
 	} else {
 		// If GetState didn't succeed during this Kill code path, but might still have
@@ -790,11 +890,11 @@ func (t *ControllableTask) Kill() error {
 			WithError(err).
 			WithField("taskId", t.ti.GetTaskID()).
 			Warn("cannot query task status for graceful process termination")
-		pid = t.knownPid
+		pid = t.getKnownPid()
 		if pid == 0 {
 			// The pid was never known through a successful `GetState` in the lifetime
 			// of this process, so we must rely on the PGID of the containing shell
-			pid = -t.rpc.TaskCmd.Process.Pid
+			pid = -rpc.TaskCmd.Process.Pid
 			// When killing the containing shell we must use syscall.Kill with a negative PID, in order to kill all
 			// children which were assigned the same PGID at launch.
 
@@ -809,8 +909,8 @@ func (t *ControllableTask) Kill() error {
 		}
 	}
 
-	_ = t.rpc.Close()
-	t.rpc = nil
+	_ = rpc.Close()
+	t.setRpc(nil)
 
 	if reachedState == "DONE" {
 		log.WithField("partition", t.knownEnvironmentId.String()).
@@ -827,15 +927,21 @@ func (t *ControllableTask) Kill() error {
 		t.pendingFinalTaskStateCh <- mesos.TASK_KILLED
 	}
 
+	var killErr error
 	if pidExists(pid) {
-		return t.doTermIntKill(pid)
+		killErr = t.doTermIntKill(pid)
 	} else {
 		log.WithField("taskId", t.ti.GetTaskID()).
 			WithField("partition", t.knownEnvironmentId.String()).
 			WithField("detector", t.knownDetector).
 			Debugf("task terminated on its own")
-		return nil
 	}
+	// The device itself is gone now (after its own cleanup). Whatever is left of its process
+	// group, e.g. the wrapping shell or forked helpers, must not outlive the task.
+	if pid > 0 && taskCmd != nil && taskCmd.Process != nil {
+		_ = syscall.Kill(-taskCmd.Process.Pid, syscall.SIGKILL)
+	}
+	return killErr
 }
 
 func (t *ControllableTask) doKill9(pid int) error {
